@@ -147,6 +147,8 @@ def interpolation_history(ctx, rng, n):
         xs, ys = _table(rng)
         it = Interpolation(xs, ys)
         steps = [['init', xs, ys]]
+        # a copy made now must not be affected by anything done to the original later (and the other way round)
+        peer, pxs, pys = Interpolation(it), list(xs), list(ys)
         for _k in range(rng.randint(2, 5)):
             op = rng.choice(['view', 'view', 'set', 'copyset'])
             if op == 'view':
@@ -169,6 +171,12 @@ def interpolation_history(ctx, rng, n):
             fresh = Interpolation(xs, ys)
             vi, vf = views(it), views(fresh)
             bad = [k for k in sorted(vi) if not _same(_try(vi[k]), _try(vf[k]))]
+            pmid = (pxs[0] + pxs[-1]) / 2.0 + 0.123
+
+            def pviews(o):
+                return {'call': lambda: o(pmid), 'derivative': lambda: o.derivative(pmid), 'str': lambda: str(o), 'len': lambda: len(o)}
+            vp, vpf = pviews(peer), pviews(Interpolation(pxs, pys))
+            bad += ['copy.' + k for k in sorted(vp) if not _same(_try(vp[k]), _try(vpf[k]))]
             ctx.predicate('object_history_consistent', not bad, ['Interpolation', None, list(steps)],
                           {'views_differing_from_a_fresh_object': bad}, 'history/Interpolation')
             if bad:
@@ -181,6 +189,7 @@ def curvefitting_history(ctx, rng, n):
         xs, ys = _table(rng)
         cf = CurveFitting(xs, ys)
         steps = [['init', xs, ys]]
+        peer, pxs, pys = CurveFitting(cf), list(xs), list(ys)
         for _k in range(rng.randint(2, 4)):
             op = rng.choice(['view', 'set', 'copyset'])
             if op != 'view':
@@ -202,6 +211,8 @@ def curvefitting_history(ctx, rng, n):
             fresh = CurveFitting(xs, ys)
             vc, vf = views(cf), views(fresh)
             bad = [k for k in sorted(vc) if not _same(_try(vc[k]), _try(vf[k]))]
+            vp, vpf = views(peer), views(CurveFitting(pxs, pys))
+            bad += ['copy.' + k for k in sorted(vp) if not _same(_try(vp[k]), _try(vpf[k]))]
             ctx.predicate('object_history_consistent', not bad, ['CurveFitting', None, list(steps)],
                           {'views_differing_from_a_fresh_object': bad}, 'history/CurveFitting')
             if bad:
